@@ -49,6 +49,7 @@ int gh_dec_calls; qba gh_dec_buf; qba gh_dec_key; bool gh_dec_ok; bool gh_dec_us
 int gh_ws_calls; quint16 gh_ws_type; qba gh_ws_id; QXmppIceTransport *gh_ws_transport; quint16 gh_ws_port; quint16 gh_ws_xport;   /* writeStun */
 int gh_pc_calls; const struct CandidatePair *gh_pc_pair; bool gh_pc_nominate;                         /* performCheck */
 int gh_rs_calls; QXmppStunTransaction *gh_rs_tx; quint16 gh_rs_type; qba gh_rs_id;                   /* QXmppStunTransaction::readStun */
+const struct CandidatePair *gh_req_pair;   /* ghost hook: the pair a (role-consistent) binding request was matched to / created for */
 const struct CandidatePair *gh_rs_pair; QXmppStunTransaction *gh_rs_pair_tx; bool gh_rs_pair_src_ok;   /* ghost hook: the pair whose transaction is fed the decoded message */
 int gh_connected, gh_dgram, gh_timer_stop; qba gh_dgram_buf;                                         /* signals, timer */
 int gh_pairs_appended, gh_pair_new, gh_sort_calls; const struct CandidatePair *gh_pairs_appended_ptr;
